@@ -20,7 +20,7 @@ from taskiq.scheduler.scheduler import TaskiqScheduler
 from ._scommon import ASSUMPTIONS, COMPONENTS_REAL, COMPONENTS_STUB, MIN, SHist, Violation, all_specs, simplifications  # noqa: F401
 
 ID = "C16"
-RUNS = {"quick": 12000, "thorough": 300000}
+RUNS = {"quick": 16000, "thorough": 300000}
 BUDGET_S = {"quick": 90, "thorough": 900}
 CHUNK = 32
 LIST_KEYS = ("ops", "fire")
